@@ -394,7 +394,10 @@ func (ca *ConnlistAnalyzer) includePairWithRepresentativePeer(pe *eval.PolicyEng
 	}
 	// if one peer is fake ingress-pod and the other is a representative peer
 	// todo: might check if peer is a fake ingress-controller by checking name and fakePod flag (within new pe func)
-	if (isRepSrc || isRepDst) && (src.Name() == common.IngressPodName || dst.Name() == common.IngressPodName) {
+	isFakeIngressPod := func(p Peer) bool { // a real workload may share the name, not the reserved namespace
+		return p.Name() == common.IngressPodName && p.Namespace() == common.IngressPodNamespace
+	}
+	if (isRepSrc || isRepDst) && (isFakeIngressPod(src) || isFakeIngressPod(dst)) {
 		return false
 	}
 	return true
